@@ -95,17 +95,78 @@ def transposeR (m : List (List Rat)) : List (List Rat) :=
   | [] => []
   | r :: _ => (List.range r.length).map (colOf m)
 
-/-- pad every row of `m` left and right (along axis 1) -/
-def padRows (m : List (List Rat)) (pad wl wr : Nat) : List (List Rat) := m.map fun row => padEdges row pad wl wr
+/-- pad every row of `m` left and right (along axis 1).  `utils._extrapolate2d` fits with
+`_extrapolate_pinv(vander[pad:-pad][:w])`, a Vandermonde matrix of `min w n` rows, and
+`_extrapolate_pinv` extends the edge value as a constant when that matrix has ONE row -- that is
+when the window is 1 *or the axis has a single point* (`vandermonde.shape[0] == 1`); so the windows
+that reach the 1-D rule are the truncated ones `min w n`. -/
+def padRows (m : List (List Rat)) (pad wl wr : Nat) : List (List Rat) :=
+  m.map fun row => padEdges row pad (min wl row.length) (min wr row.length)
 /-- pad every column (along axis 0) -/
 def padCols (m : List (List Rat)) (pad wt wb : Nat) : List (List Rat) := transposeR (padRows (transposeR m) pad wt wb)
 
 def avg2 (a b : List (List Rat)) : List (List Rat) := List.zipWith (List.zipWith fun x y => (x + y) / 2) a b
 
 /-- `_extrapolate2d(y, ((pr, pr), (pc, pc)), ((wt, wb), (wl, wr)))`: the interior and the four strips
-are the same in both orders of padding; the corners are the mean of "rows then columns" and
-"columns then rows" -/
+are the same in both orders of padding; the corners are the mean of "rows then columns"
+(`left_top`, `right_top`, … : the left/right strips extended up and down) and "columns then rows"
+(`top_left`, … : the top/bottom strips extended sideways) -/
 def extrapolate2d (y : List (List Rat)) (pr pc wt wb wl wr : Nat) : List (List Rat) :=
   avg2 (padCols (padRows y pc wl wr) pr wt wb) (padRows (padCols y pr wt wb) pc wl wr)
+
+/-- (specification side) where the value at output position `k` of a padded axis comes from when the
+data are a line: itself, except on a side whose effective window `min w n` is one point, where it is
+the edge position -/
+def clampIdx (pad n wl wr k : Nat) : Nat :=
+  if k < pad then (if min wl n = 1 then pad else k)
+  else if pad + n ≤ k then (if min wr n = 1 then pad + n - 1 else k)
+  else k
+
+/-- (specification side) the right-hand side of `C18.extrap2d_planar_clamped`: what planar data
+`a + b·(pr+i) + c·(pc+j)` are claimed to be padded to -/
+def planarClamped (a b c : Rat) (M N pr pc wt wb wl wr : Nat) : List (List Rat) :=
+  (List.range (M + 2 * pr)).map fun k => (List.range (N + 2 * pc)).map fun l =>
+    a + b * (((clampIdx pr M wt wb k : Nat) : Int) : Rat) + c * (((clampIdx pc N wl wr l : Nat) : Int) : Rat)
+
+/-! ### `pad_edges2d(data, pad_length, 'extrapolate', extrapolate_window)`: the argument handling -/
+
+/-- `_validation._get_row_col_values`: a scalar (or a one-item sequence, which `_check_scalar` treats
+as a scalar) gives four copies, two values `(a, b)` give `(a, a, b, b)` = (first row, last row, first
+column, last column), four values are taken as given, any other length is a `ValueError` (`none`) -/
+def rowColValues : List Int → Option (Int × Int × Int × Int)
+  | [a] => some (a, a, a, a)
+  | [a, b] => some (a, a, b, b)
+  | [a, b, c, d] => some (a, b, c, d)
+  | _ => none
+
+inductive Pad2dResult where
+  | ok (m : List (List Rat))
+  | notImplemented
+  | valueError
+  deriving DecidableEq, Repr
+
+/-- `_extrapolate2d`: `extrapolate_window=None` means the four pad lengths, else `_get_row_col_values` -/
+def windows2d (pad4 : Int × Int × Int × Int) : Option (List Int) → Option (Int × Int × Int × Int)
+  | none => some pad4
+  | some w => rowColValues w
+
+/-- `utils.pad_edges2d(y, pad_length, 'extrapolate', extrapolate_window)` for two-dimensional `y`:
+`pad_length` through `_get_row_col_values`; `_extrapolate2d` first refuses any zero pad length
+(`NotImplementedError`), then any negative one (`ValueError`); the windows default to the four pad
+lengths, else go through `_get_row_col_values`; a window ≤ 0 is a `ValueError`; **only the first
+row value and the first column value of the padding are used** ("pad length for left and right or
+top and bottom should be equal, so ignore the repeats"), the four windows are all used. -/
+def padEdges2dExtrap (y : List (List Rat)) (pad : List Int) (win : Option (List Int)) : Pad2dResult :=
+  match rowColValues pad with
+  | none => .valueError
+  | some (pt, pb, pl, pr) =>
+    if pt = 0 ∨ pb = 0 ∨ pl = 0 ∨ pr = 0 then .notImplemented
+    else if pt < 0 ∨ pb < 0 ∨ pl < 0 ∨ pr < 0 then .valueError
+    else
+      match windows2d (pt, pb, pl, pr) win with
+      | none => .valueError
+      | some (wt, wb, wl, wr) =>
+        if wt ≤ 0 ∨ wb ≤ 0 ∨ wl ≤ 0 ∨ wr ≤ 0 then .valueError
+        else .ok (extrapolate2d y pt.toNat pl.toNat wt.toNat wb.toNat wl.toNat wr.toNat)
 
 end PbVerif.Pad
